@@ -331,6 +331,14 @@ fn run_schedule(r: &mut Rng, async_client: bool, async_server: bool, max_steps: 
             Some(s) => if last_data_seq.map_or(false, |d| d > s) { fail(&mut fails, "data-after-completed-release", format!("P-DATA-TF on the wire after the A-RELEASE-RP answering {}", peer(p))); }
         }
     }
+    // abort(): when the direction ended in an orderly way, the A-ABORT is the last PDU the peer put on the wire
+    for l in &trace {
+        if let Label::Abort(p) = l {
+            if orderly[*p] && wire[*p].last() != Some(&Kind::Abort) {
+                fail(&mut fails, "abort-without-a-abort-pdu", format!("{} called abort(); PDUs it put on the wire: {:?}", peer(*p), wire[*p]));
+            }
+        }
+    }
     let oracle = match fails { Some((class, detail)) => Oracle::Fails { class, detail }, None => Oracle::Holds };
     Some(Run { trace, wire, orderly, oracle, impls: (async_client, async_server), notes })
 }
